@@ -43,7 +43,7 @@ TRUSTED = ['Python float arithmetic is modelled by exact rational arithmetic (re
            'ROUND(float, digits > 2000) is judged by the oracle only (the executable model would compute 10^digits)',
            'Python builtins round(), math.ceil/floor, int(text, base), hex(), str.rjust, complex() as described in the model files',
            'sys.settrace line-event counting as the termination observer (budget %d line events per call), plus a wall-clock alarm '
-           '(%d s, SIGALRM raised into the call) for the calls whose work sits in C (big-integer powers and factorials)' % (100000, 5)]
+           '(%d s, SIGPROF after that much processor time, raised into the call) for the calls whose work sits in C (big-integer powers and factorials)' % (100000, 5)]
 ASSUMPTIONS = ['a float argument is judged by the exact value of the double; a result may differ from the exact multiple by 2 ulp',
                'the documented range of FACT / FACTDOUBLE ends where the result stops being an XL number (a finite double): from the '
                'first n on with n! (n!!, and every later one) beyond the largest double - 171 and 301, computed by the oracle itself - '
@@ -102,8 +102,9 @@ def budgeted(f):
     armed = False
     try:
         import signal
-        old_handler = signal.signal(signal.SIGALRM, on_alarm)
-        signal.setitimer(signal.ITIMER_REAL, WALL)
+        # processor time of this process, not wall-clock: a loaded machine must not turn a fast call into a "hang"
+        old_handler = signal.signal(signal.SIGPROF, on_alarm)
+        signal.setitimer(signal.ITIMER_PROF, WALL)
         armed = True
     except (ValueError, AttributeError, ImportError):
         pass          # not the main thread / no SIGALRM: line events only
@@ -115,8 +116,8 @@ def budgeted(f):
     finally:
         sys.settrace(old)
         if armed:
-            signal.setitimer(signal.ITIMER_REAL, 0)
-            signal.signal(signal.SIGALRM, old_handler)
+            signal.setitimer(signal.ITIMER_PROF, 0)
+            signal.signal(signal.SIGPROF, old_handler)
 
 
 def dec_arg(a):
